@@ -18,6 +18,9 @@ type Plan struct {
 	Types []*TypeEntry
 }
 
+// Mode writes a MODE record (how the driver judges outcomes from here on).
+func (p *Plan) Mode(m string) { p.Out.Line("MODE " + m) }
+
 // PropRunner generates the op records for one property.
 type PropRunner func(p *Plan)
 
